@@ -60,7 +60,6 @@ func VerifC15_TaxAmount() {
 	sym.Assert(sym.And(lo.Cmp(prod) <= 0, prod.Cmp(hi) < 0), "tax-is-floor-of-amount-times-rate")
 }
 
-
 // VerifC15_Limits: transfer limits. A history of sends through the real msg
 // server (each delivered atomically: state is committed only when the handler
 // succeeds), at heights spread around the window boundary, by a limited and an
